@@ -3,11 +3,14 @@ import ShootVerif.Props.C01
 import ShootVerif.Props.C02
 import ShootVerif.Props.C03
 import ShootVerif.Props.C04
+import ShootVerif.Props.C05
 import ShootVerif.Props.C06
+import ShootVerif.Props.C09
 import ShootVerif.Props.C10
 import ShootVerif.Props.C11
 import ShootVerif.Props.C12
 import ShootVerif.Props.C13
 import ShootVerif.Props.C14
+import ShootVerif.Props.C15
 import ShootVerif.Props.C19
 import ShootVerif.Props.C20
